@@ -18,7 +18,9 @@ Inductive cstatus :=
 | CWait                         (* op_call awaiting its one-shot *)
 | COk (p : option resp) | CErr (e : cerr)
 | SActive | SDone | SClosed | SError | SPanicked
-| SStartErr (e : cerr).           (* streaming_search returned Err: the caller never holds a stream *)
+| SStartErr (e : cerr)            (* streaming_search returned Err: the caller never holds a stream *)
+| CAlloc.                         (* op_call has taken its message id (next_msgid, under the shared mutex) but has not yet sent the request to
+                                     the driver's queue: with handles on several threads other operations can be allocated AND queued in between *)
 
 Record cop := mkOp {
   o_mid : Z; o_kind : kind; o_deadline : option Z; o_status : cstatus; o_reply : oneshot;
@@ -85,13 +87,36 @@ Inductive ev :=
 | ServerSend (r : resp)
 | CliPoll (o : nat)
 | StreamNext (o : nat) | StreamFinish (o : nat)
-| Advance (dt : Z).
+| Advance (dt : Z)
+| Alloc (k : kind) (timeout : option Z)   (* the first half of Start: id allocation only *)
+| Enqueue (o : nat).                       (* the second half: self.tx.send(..) of an allocated operation; the op timer starts here *)
 
 Definition fill_reply (p : option resp) (c : cop) : cop :=   (* a one-shot is sent at most once; sending to a dropped receiver fails and the sender is consumed *)
   match o_reply c with OsEmpty => if waiting c then c <| o_reply := OsFilled p |> else c <| o_reply := OsClosed |> | _ => c end.
 
+Definition is_search_kind (k : kind) : bool := match k with KSearch _ => true | _ => false end.
+Definition start_err (k : kind) (e : cerr) : cstatus := match k with KSearch _ => SStartErr e | _ => CErr e end.
+Definition alloc (k : kind) (tmo : option Z) (s : st) : st :=
+  match next_msgid (last s) (inuse s) with
+  | Found mid =>
+      (* the one-shot (and a search's item channel) do not exist yet: the record is inert until Enqueue creates and hands them over *)
+      s <| last := mid |> <| inuse ::= cons mid |>
+        <| ops ::= fun l => l ++ [mkOp mid k None CAlloc OsClosed [] 0 false false [] None tmo None] |>
+  | _ => s end.
+Definition enqueue (o : nat) (s : st) : st :=
+  match getop s o with None => s | Some c =>
+    match o_status c with
+    | CAlloc =>
+        if is_running s
+        then updop o (fun c => c <| o_status := CWait |> <| o_deadline := option_map (Z.add (now s)) (o_tmo c) |> <| o_reply := OsEmpty |>
+                                 <| o_chan := is_search_kind (o_kind c) |> <| o_rx := is_search_kind (o_kind c) |>) s <| opq ::= fun q => q ++ [o] |>
+        else updop o (fun c => c <| o_status := start_err (o_kind c) EOpSend |> <| o_deadline := option_map (Z.add (now s)) (o_tmo c) |>) s
+    | _ => s end end.
+
 Definition step (s : st) (e : ev) : st :=
   match e with
+  | Alloc k tmo => alloc k tmo s
+  | Enqueue o => enqueue o s
   | Start k tmo =>
     match next_msgid (last s) (inuse s) with
     | Found mid =>
@@ -226,6 +251,24 @@ Definition step (s : st) (e : ev) : st :=
   end.
 
 Definition run (f : fixes) (evs : list ev) : st := fold_left step evs (init f).
+
+(* Start is exactly Alloc followed at once by Enqueue of the operation just allocated (one thread, no preemption in between) *)
+Lemma upd_last {A} (f : A -> A) (l : list A) (x : A) : upd (length l) f (l ++ [x]) = l ++ [f x].
+Proof. induction l as [|a l IH]; cbn; [reflexivity|now rewrite IH]. Qed.
+Lemma nth_error_last {A} (l : list A) (x : A) : nth_error (l ++ [x]) (length l) = Some x.
+Proof. induction l as [|a l IH]; cbn; [reflexivity|exact IH]. Qed.
+Lemma st_eq (a b : st) : fx a = fx b -> last a = last b -> inuse a = inuse b -> rmap a = rmap b -> smap a = smap b -> opq a = opq b ->
+  scrubq a = scrubq b -> win a = win b -> wout a = wout b -> ops a = ops b -> drv a = drv b -> now a = now b -> sent a = sent b ->
+  processed a = processed b -> a = b.
+Proof. destruct a, b. cbn [fx last inuse rmap smap opq scrubq win wout ops drv now sent processed]. intros. subst. reflexivity. Qed.
+Lemma start_split s k tmo : step s (Start k tmo) = step (step s (Alloc k tmo)) (Enqueue (length (ops s))).
+Proof.
+  cbn [step]. unfold alloc. destruct (next_msgid (last s) (inuse s)) as [mid| |].
+  - unfold enqueue, getop. cbn [ops set]. rewrite nth_error_last. cbn [o_status]. unfold is_running. cbn [drv set].
+    destruct (drv s); apply st_eq; try reflexivity; unfold updop; cbn [ops set]; rewrite upd_last; destruct k; reflexivity.
+  - unfold enqueue, getop. now rewrite (proj2 (nth_error_None (ops s) (length (ops s))) (le_n _)).
+  - unfold enqueue, getop. now rewrite (proj2 (nth_error_None (ops s) (length (ops s))) (le_n _)).
+Qed.
 
 (* ---- C13 as an executable predicate ---- *)
 Definition op_finished (c : cop) : bool :=
